@@ -8,7 +8,9 @@ correspondence:  (a) real Delta(...).dumps() bytes, parsed by pickletools.genops
                  (b) the model's canonical encoding (Codec.enc_prog) of the same payloads,
                      printed by Coq, assembled to bytes and loaded by the real pickle_load;
                  (c) JSON: json_dumps(payload) as a JSON value against Codec.to_json, and
-                     Delta(text, deserializer=json_loads).diff against Codec.json_roundtrip.
+                     Delta(text, deserializer=json_loads).diff against Codec.json_roundtrip;
+                 (d) informational: which real dumps lie in the syntactic encoding class `accepts`
+                     for which the round trip is proved (C14_accepted_encodings_roundtrip).
 direct oracle:   Delta(d.dumps()).diff == d.diff (typed), same for dump(file) / delta_path /
                  delta_file / a second dump; equal results (or the same exception class) when the
                  original and the reloaded delta are applied to the original base and to two
@@ -445,7 +447,7 @@ def one_case(ctx, rng, idx, out):
             out["vm"].append(("sx_load default_world %s" % P.prog_coq(ops), expected, dict(case, corr="vm", generation=gen_i + 1)))
             shared = _shares_mutable(rr["result"])
             ctx.count("dump:with-shared-mutable-container" if shared else "dump:no-shared-mutable-container")
-            out["acc"].append(("sx_bool (accepts %s %s)" % (P.prog_coq(ops), pcoq), not shared, dict(case, corr="accepts", generation=gen_i + 1, shared=shared)))
+            out["acc"].append(("(%s, %s)" % (P.prog_coq(ops), pcoq), shared, dict(case, corr="accepts", generation=gen_i + 1, shared=shared)))
             memo_kind, prev = {}, None
             for o in ops:
                 ctx.count("dump-op:" + o[0])
@@ -694,6 +696,52 @@ def encoder_part(ctx, items):
     ctx.count("corr_cases:canonical encodings loaded by the implementation", n_ok)
 
 
+def accepts_part(ctx, items):
+    """Which real dumps lie in the encoding class of C14_accepted_encodings_roundtrip.  Informational
+    (a pickler that leaves the class - another protocol, say - is not a violation: the VM run above still
+    checks its dumps); only an accepted dump WITH a shared mutable object would contradict the model."""
+    if not items:
+        return
+    from concurrent.futures import ThreadPoolExecutor
+    hdr = ("From DD Require Import Base.PyStr Base.Value Pickle.Vm Pickle.Codec Pickle.Encodes Pickle.PickleShow.\n"
+           "Local Open Scope Z_scope.")
+    chunk = 40
+    parts = [items[i:i + chunk] for i in range(0, len(items), chunk)]
+
+    def one(k):
+        return coq_eval_big(ctx, "c14_acc_%d" % k, hdr,
+                            '"BEGIN" ++ nl ++ show_accepts [%s] ++ nl ++ "END"' % "; ".join(e for e, _s, _c in parts[k]))
+    with ThreadPoolExecutor(max_workers=core.NCPU) as ex:
+        outs = list(ex.map(one, range(len(parts))))
+    acc = rej_unshared = rej_shared = 0
+    examples = []
+    for part, txt in zip(parts, outs):
+        if txt is None:
+            continue
+        flags = txt.strip()
+        if len(flags) != len(part):
+            ctx.break_("correspondence", {"name": "accepts", "error": "expected %d flags, got %r" % (len(part), flags[:80])})
+            continue
+        for (expr, shared, case), fl in zip(part, flags):
+            ctx.corr_cases += 1
+            if fl == "T":
+                acc += 1
+                if shared:
+                    ctx.corr_mismatch += 1
+                    ctx.break_("correspondence", {"name": "accepts", "case": case,
+                                                  "meaning": "the checker accepted a dump that fetches a shared mutable object from the memo"})
+            elif shared:
+                rej_shared += 1
+            else:
+                rej_unshared += 1
+                if len(examples) < 3:
+                    examples.append(case)
+    ctx.count("corr_cases:real dumps tested for the proved encoding class", acc + rej_shared + rej_unshared)
+    ctx.note("proved_encoding_class", {"real_dumps": acc + rej_shared + rej_unshared, "accepted": acc,
+                                       "outside_because_shared_mutable_object": rej_shared,
+                                       "outside_for_another_reason": rej_unshared, "examples_other_reason": examples})
+
+
 # ---------------------------------------------------------------------------
 # known findings
 # ---------------------------------------------------------------------------
@@ -757,8 +805,7 @@ def run(ctx):
     hdr = "From DD Require Import Base.PyStr Base.Value Pickle.Vm Pickle.Codec Pickle.PickleShow.\nLocal Open Scope Z_scope."
     ctx.coq_cases("c14_vm", hdr, out["vm"], shard=60, label="real dumps on the model VM")
     ctx.coq_cases("c14_json", hdr, out["json"], shard=120, label="json value + json round trip")
-    ctx.coq_cases("c14_accepts", hdr.replace("Pickle.PickleShow.", "Pickle.PickleShow Pickle.Encodes."), out["acc"], shard=60,
-                  label="real dumps in the proved encoding class (accepts)")
+    accepts_part(ctx, out["acc"])
     encoder_part(ctx, out["enc"])
     if out["vm"]:
         ctx.sample({"case": out["vm"][0][2], "expected": out["vm"][0][1]})
@@ -789,7 +836,18 @@ def replay(ctx, data):
             return
     else:
         try:
-            d2 = Delta(d.dumps(), bidirectional=bid, always_include_values=aiv)
+            src = case.get("source", "bytes")
+            if src in ("file", "path"):
+                fn = os.path.join(ctx.scratch, "replay_delta.bin")
+                with open(fn, "wb") as f:
+                    d.dump(f)
+                if src == "path":
+                    d2 = Delta(delta_path=fn, bidirectional=bid, always_include_values=aiv)
+                else:
+                    with open(fn, "rb") as f:
+                        d2 = Delta(delta_file=f, bidirectional=bid, always_include_values=aiv)
+            else:
+                d2 = Delta(d.dumps(), bidirectional=bid, always_include_values=aiv)
         except Exception as e:  # noqa
             print("replay: pickle path raised %s: %s" % (type(e).__name__, e))
             ctx.fail(dict(case), "Delta's own dump does not load: %s" % type(e).__name__)
@@ -798,7 +856,7 @@ def replay(ctx, data):
     bad = not typed_payload_eq(d2.diff, d.diff)
     bases = [t1] + ([eval(case["base"])] if "base" in case else [])
     for b in bases:
-        w, g = apply_delta(b, d), apply_delta(b, d2)
+        w, g = apply_delta(b, Delta(dd, bidirectional=bid, always_include_values=aiv)), apply_delta(b, d2)
         print("replay: base %r -> original %r / reloaded %r" % (b, w, g))
         bad = bad or w != g
     if bad:
